@@ -767,6 +767,12 @@ func c05Exec(r *sim.Run, sci interface{}) {
 		twinU.m.close()
 		twinF.m.close()
 	}()
+	// prologue: one fixed request (public X-Forwarded-For that no scenario
+	// uses) through the filter-less twin, so that any process-wide "last
+	// request" state of the address extraction is the same at the start of
+	// every run, whatever ran before in this worker process (replays start
+	// in a fresh process).
+	twinU.serve(c05Op{Kind: "req", Host: "warmup.test", Method: "GET", Path: "/", IP: "198.18.0.1", Via: "xff"}, "warmup")
 	hasTags := false
 	for _, ru := range sc.Rules {
 		for _, p := range ru.Paths {
